@@ -441,6 +441,8 @@ int g_slot = 0;
 size_t g_bump = 0;                 // offset in the current slot
 uint64_t g_ordinal = 0;            // repo-scope allocations in this epoch
 uint64_t g_live[NUM_SLOTS];        // live blocks per slot
+size_t g_high[NUM_SLOTS];          // high-water mark of each slot (where a later operation may continue when nothing is free)
+std::vector<std::pair<uint32_t, char *>> *g_slotFreed;   // [NUM_SLOTS] blocks freed by the last operation in a slot that still holds live ones
 uint32_t g_slotEpoch[NUM_SLOTS];
 // Free lists of the current epoch: size16 -> blocks.  Sizes above the table go to a map-free list.
 const uint32_t SMALL = 512;        // size16 up to 8 kB in direct table
@@ -459,6 +461,7 @@ void ensureArena() {
   g_arena = (char *)p;
   g_harnessDepth++;
   g_free = new std::vector<char *>[SMALL + 1];
+  g_slotFreed = new std::vector<std::pair<uint32_t, char *>>[NUM_SLOTS];
   g_freeBig = new std::vector<std::pair<uint32_t, char *>>();
   g_harnessDepth--;
 }
@@ -507,13 +510,29 @@ void begin(const Config &c, const Carry *carry) {
   g_epoch++;
   // The lowest slot with no live block from an earlier epoch.
   g_slot = -1;
-  for (int s = 0; s < NUM_SLOTS; s++) if (g_live[s] == 0) { g_slot = s; break; }
+  for (int s = 0; s < NUM_SLOTS; s++) if (g_live[s] == 0) { g_slot = s; g_high[s] = 0; break; }
+  size_t startAt = 0;
+  if (g_slot < 0) {
+    // Code under test that never frees something (a static container that grows with every call) leaves
+    // a live block in every slot sooner or later.  Then the operation continues behind the high-water
+    // mark of the emptiest slot: nothing live is overlaid, and addresses stay a function of the
+    // sequence of operations in this process (which a replay repeats), not of the C library's heap.
+    int best = -1;
+    for (int s = 0; s < NUM_SLOTS; s++) if (g_high[s] + (16u << 20) < SLOT_SIZE && (best < 0 || g_high[s] < g_high[best])) best = s;
+    if (best >= 0) { g_slot = best; startAt = (g_high[best] + 4095) & ~(size_t)4095; }
+  }
+  bool continued = startAt != 0;
   if (g_slot < 0) { g_active = false; counters.overflowToMalloc++; g_harnessDepth--; return; }
   g_slotEpoch[g_slot] = g_epoch;
-  g_bump = (size_t)(c.baseShift % 4096) * 16;
+  g_bump = startAt + (size_t)(c.baseShift % 4096) * 16;
   g_ordinal = 0;
   for (uint32_t k = 0; k <= SMALL; k++) g_free[k].clear();
   g_freeBig->clear();
+  if (continued) {
+    // Like a long-lived heap: what the previous operation in this slot freed is handed out again first.
+    for (auto &e : g_slotFreed[g_slot]) { if (e.first <= SMALL) g_free[e.first].push_back(e.second); else g_freeBig->push_back(e); }
+    if (g_cfg.mode == STALE) g_cfg.mode = PRNG;
+  }
   if (carry && carry->valid && carry->slot == g_slot) {
     // Continue where the earlier operation stopped: fresh blocks follow its last one, and the blocks
     // it freed are recycled first.
@@ -526,12 +545,23 @@ void begin(const Config &c, const Carry *carry) {
   g_padRng = Rng(mix64(c.padSeed, 0x9AD));
   g_recRng = Rng(mix64(c.padSeed, 0x4EC));
   counters = Counters();
+  if (startAt) counters.continuedBehindLeak = 1;
   if (carry && carry->valid && carry->slot == g_slot) counters.carried = carry->freed.size();
   counters.slot = (uint64_t)g_slot;
   g_active = true;
   g_harnessDepth--;
 }
-void end() { g_active = false; }
+void end() {
+  if (g_active && g_slot >= 0 && g_arena) {
+    HarnessScope hs;
+    g_slotFreed[g_slot].clear();
+    if (g_live[g_slot] > 0) {       // something stays alive in this slot: remember what was freed around it
+      for (uint32_t k = 0; k <= SMALL; k++) for (char *b : g_free[k]) g_slotFreed[g_slot].emplace_back(k, b);
+      for (auto &e : *g_freeBig) g_slotFreed[g_slot].push_back(e);
+    }
+  }
+  g_active = false;
+}
 
 static void *arenaAlloc(size_t n) {
   uint32_t size16 = (uint32_t)((n + 15) / 16);
@@ -568,6 +598,7 @@ static void *arenaAlloc(size_t n) {
     if (g_bump + need > SLOT_SIZE) { counters.overflowToMalloc++; return nullptr; }
     blk = g_arena + (size_t)g_slot * SLOT_SIZE + g_bump + pad + sizeof(Header);
     g_bump += need;
+    if (g_bump > g_high[g_slot]) g_high[g_slot] = g_bump;
     counters.fresh++;
   } else counters.recycled++;
   Header *h = (Header *)(blk - sizeof(Header));
